@@ -286,7 +286,18 @@ impl Check for C18 {
     fn runs(t: Tier) -> u64 {
         t.pick(6_000, 500_000)
     }
-    fn generate(rng: &mut Rng, _tier: Tier, _idx: u64) -> Case {
+    fn generate(rng: &mut Rng, _tier: Tier, idx: u64) -> Case {
+        if idx % 40 == 17 {
+            // maximal strings / raw data around the 16 bit length limit (one value per case)
+            let l = *rng.pick(&[65_532usize, 65_533, 65_534, 65_535, 65_536]);
+            let v = match rng.below(3) {
+                0 => Val::Str("s".repeat(l)),
+                1 => Val::Raw(vec![0xabu8; l]),
+                _ => Val::Ascii(vec![b'a'; l.saturating_sub(1)]),
+            };
+            let encoder = rng.below(2) as u8;
+            return Case { vals: vec![v], big_endian: encoder == 1 && rng.bool(), encoder, only_fault: None };
+        }
         let n = rng.weighted(&[4, 20, 20, 15, 15, 10, 6, 4, 2, 1, 1, 1, 1]);
         let vals = (0..n).map(|_| gen_val(rng)).collect();
         let encoder = rng.below(2) as u8;
@@ -301,8 +312,43 @@ impl Check for C18 {
             ctx.sig.u64(v.type_info() as u64);
             ctx.sig.bytes(&v.raw(c.big_endian)[..std::cmp::min(16, v.raw(c.big_endian).len())]);
         }
-        let payload = encode(c).map_err(|e| Violation::new("encoder-error", e))?;
+        let too_large = c.vals.iter().any(|v| v.raw(c.big_endian).len() > 0xffff);
+        let payload = match encode(c) {
+            Ok(p) => p,
+            Err(e) => {
+                if too_large {
+                    ctx.probe("encoder_rejected_oversized_value");
+                    ctx.nontrivial = true;
+                    return Ok(()); // a value that does not fit the 16 bit length may be rejected
+                }
+                return Err(Violation::new("encoder-error", e));
+            }
+        };
+        if too_large && c.encoder == 0 {
+            viol!("encoder-accepted-oversized-value", "a value of more than 65535 stored bytes was encoded ({} payload bytes)", payload.len());
+        }
+        if too_large {
+            return Ok(()); // payload_from_args has no error channel; out of the 16 bit range is outside the input space
+        }
         if payload.len() > 60_000 {
+            // too big to be framed in one message: decode the in-memory message, no write/re-read, no fault enumeration
+            ctx.probe("maximal_value");
+            ctx.evals += 1;
+            let m = frame(payload.clone(), c.vals.len() as u8, c.big_endian);
+            let args = decode(&m);
+            if args.len() != c.vals.len() {
+                viol!("decode-count", "{} values encoded ({} bytes), {} arguments decoded (maximal value)", c.vals.len(), payload.len(), args.len());
+            }
+            for (i, (a, v)) in args.iter().zip(c.vals.iter()).enumerate() {
+                if a.type_info != v.type_info() || a.payload_raw != &v.raw(c.big_endian)[..] {
+                    viol!("decode-raw", "argument {}: maximal value differs after decoding", i);
+                }
+            }
+            let want: String = c.vals.iter().map(|v| v.text()).collect::<Vec<_>>().join(" ");
+            if m.payload_as_text().map(|t| t != want).unwrap_or(true) {
+                viol!("canonical-text", "text of a maximal value differs from the canonical form");
+            }
+            ctx.nontrivial = true;
             return Ok(());
         }
         let lay = layout(c);
@@ -479,6 +525,6 @@ impl Check for C18 {
         vec!["value generator", "fault injector on the stored payload"]
     }
     fn required_reach() -> Vec<&'static str> {
-        vec!["truncation", "type_info_corruption", "length_prefix_corruption", "noar_corruption"]
+        vec!["truncation", "type_info_corruption", "length_prefix_corruption", "noar_corruption", "maximal_value", "encoder_rejected_oversized_value"]
     }
 }
